@@ -232,7 +232,7 @@ def shared_wrapper_immutable(facts, res):
         if m["kind"] != "CXXMethod":
             continue
         n += 1
-        if not m.get("const"):
+        if not m.get("const") and not m.get("static"):      # (a static helper has no object to modify)
             res.violation(R, tbf.rel(facts.path_of(m)), m["qname"], "nonconst-method", m["l"][1], "wrapper operator %s is not const although the wrapper is shared by concurrent tasks" % m["name"])
         for x in walk(tbf.body(m)):
             if x.get("k") in ("VarDecl",) and x.get("staticlocal"):
